@@ -159,7 +159,14 @@ class Emitter(object):
             return r.choice(('/* c */', '/* multi\nline * comment */', '/**/', '/* a ; b */', '/*** x ***/',
                              '/* // */', '/* "s" */', '/** doc **/', '/* x **/', '/****/', '/***/',
                              '/****** box ******/', '/* a **** b */', '/* / * / */', '/*/ x */', '/* *\n * y\n **/'))
-        body = ''.join(r.choice(('*', '*', '/', ' ', 'a', '\n', ';', '"', "'", 'end if')) for _ in range(r.randint(0, 12)))
+        # (besides the line feed a comment may hold the characters other conventions end a line with - form feed,
+        # vertical tab, a lone carriage return, the separators 1c-1e, NEL, U+2028 / U+2029: none of them ends a line
+        # of the text, whose lines are counted in line feeds)
+        body = ''.join(r.choice(('*', '*', '/', ' ', 'a', '\n', ';', '"', "'", 'end if') +
+                                (('\x0c', '\x0b', '\r', '\x1c', '\x1e', '\x85', '\u2028', '\u2029') if r.random() < 0.15 else ()))
+                       for _ in range(r.randint(0, 12)))
+        if any(ch in body for ch in '\x0c\x0b\r\x1c\x1e\x85\u2028\u2029'):
+            STATS['comment-with-other-line-boundary-character'] = STATS.get('comment-with-other-line-boundary-character', 0) + 1
         while '*/' in body:
             body = body.replace('*/', '* /')
         if body.startswith('/') and False:
